@@ -154,4 +154,11 @@ MUTANTS = [
  {"id": "split-at-argument-loses-first-byte", "kind": "break", "edits": [{"patch": "/verif/benign/h8-plist-2/patch.diff"}, ("src/plist.rs", "            .map(|i| OsStr::from_bytes(&rest[i..]));", "            .map(|i| OsStr::from_bytes(&rest[i + 1..]));")], "expect": ["D1-"]},
  {"id": "split-at-argument-from-last-non-blank", "kind": "break", "edits": [{"patch": "/verif/benign/h8-plist-2/patch.diff"}, ("src/plist.rs", "            .position(|c| !c.is_ascii_whitespace())", "            .rposition(|c| !c.is_ascii_whitespace())")], "expect": ["D1-SPLIT"]},
  {"id": "split-at-argument-cut-from-whole-line", "kind": "break", "edits": [{"patch": "/verif/benign/h8-plist-2/patch.diff"}, ("src/plist.rs", "            .map(|i| OsStr::from_bytes(&rest[i..]));", "            .map(|i| OsStr::from_bytes(&bytes[i..]));")], "expect": ["D1-"]},
+
+ # single pass, the recording guard reduced to `tstart < idx` (start <= tstart is the loop's invariant)
+ {"id": "single-guard-benign", "kind": "benign", "edits": [{"patch": "/verif/benign/h8-plist-3/patch.diff"}]},
+ {"id": "single-guard-cursor-not-reset", "kind": "break", "edits": [{"patch": "/verif/benign/h8-plist-3/patch.diff"}, ("src/plist.rs", "                start = idx + 1;\n                tstart = start;", "                start = idx + 1;")], "expect": ["D3-"]},
+ {"id": "single-guard-blank-lines-recorded", "kind": "break", "edits": [{"patch": "/verif/benign/h8-plist-3/patch.diff"}, ("src/plist.rs", "                if tstart < idx {", "                if tstart <= idx {")], "expect": ["D3-"]},
+ {"id": "single-guard-line-from-first-non-blank", "kind": "break", "edits": [{"patch": "/verif/benign/h8-plist-3/patch.diff"}, ("src/plist.rs", "PlistEntry::from_bytes(&bytes[start..idx])?", "PlistEntry::from_bytes(&bytes[tstart..idx])?")], "expect": ["D3-"]},
+ {"id": "single-guard-last-line-guard-on-start", "kind": "break", "edits": [{"patch": "/verif/benign/h8-plist-3/patch.diff"}, ("src/plist.rs", "        if tstart < bytes.len() {", "        if start < bytes.len() {")], "expect": ["D3-"]},
 ]
